@@ -259,7 +259,10 @@ func (fr *Frame) callWith0(st *State, c *ssa.CallCommon, args []Val, site ssa.In
 	if key == "" {
 		key = "<dynamic call>"
 	}
-	if scalarOnly(sig) && (callee == nil || !inRepo(callee)) && !c.IsInvoke() {
+	// a known function of another module that takes and returns scalars only cannot
+	// reach the heap of the verified code; a call through a function value can
+	// (its closure may have captured anything), so it is never treated this way
+	if scalarOnly(sig) && callee != nil && !inRepo(callee) && !c.IsInvoke() {
 		vc.trusted["scalar-extern:"+key] = true
 		res := vc.freshVal("r."+shortCallee(key), rt)
 		vc.assume(st, vc.wellTyped(st, res))
